@@ -306,6 +306,15 @@ def concrete_playback(h, seed, timeout_s, profiles=("dev", "release")):
     """Ask Kani for concrete tests for the failing checks of a harness, then execute them natively
     (dev semantics = what Kani models, and release semantics = what users run).
     Returns (reproduced: bool|None, test_sources|None, detail)."""
+    if h.get("native_grid") and h.get("grid_first"):
+        # harnesses whose CBMC trace is known to be too large for a playback test in time
+        results = run_playback_tests(h, seed, [], profiles=profiles, extra_names=[h["native_grid"]])
+        repro = any(v[0] in ("panicked", "timeout", "aborted") for v in results.values())
+        detail = {k: list(v) for k, v in results.items()}
+        detail["note"] = ["native_grid", "replayed the harness body natively over its boundary grid (%s); no Kani playback attempted (trace over a 4 MiB array)" % h["native_grid"]]
+        if all(v[0] == "error" for v in results.values()):
+            return None, None, "native grid did not build/run: %s" % list(results.values())[0][1]
+        return repro, ["// native grid test %s in %s" % (h["native_grid"], h["file"])], detail
     extra = ["-Z", "concrete-playback", "--concrete-playback=print"]
     if h.get("_unwindset_resolved"):
         extra += ["--cbmc-args", "--unwindset", ",".join(h["_unwindset_resolved"])]
